@@ -52,6 +52,9 @@ type Thread struct {
 	// functions).
 	goFunctionCallDepth int
 
+	// Depth of calls made from Go code into continuations (see Thread.call).
+	reentrantCallDepth int
+
 	DebugHooks
 
 	closeStack // Stack of pending to-be-closed values
@@ -300,6 +303,16 @@ func (t *Thread) cleanupCloseStackAtEnd(err *error) (termination interface{}) {
 }
 
 func (t *Thread) call(c Callable, args []Value, next Cont) error {
+	// This runs a continuation from within Go code (a metamethod, a callback
+	// of a Go function...), i.e. it re-enters RunContinuation on the Go stack.
+	// The depth of such re-entries is limited so that runaway recursion (e.g.
+	// an __index metamethod that indexes its own table) ends with a Lua error
+	// rather than an irrecoverable Go stack overflow.
+	t.reentrantCallDepth++
+	defer func() { t.reentrantCallDepth-- }()
+	if t.reentrantCallDepth > maxGoFunctionCallDepth {
+		return errors.New("stack overflow")
+	}
 	cont := c.Continuation(t, next)
 	t.Push(cont, args...)
 	return t.RunContinuation(cont)
